@@ -97,6 +97,12 @@ mut("c14_v4_score_cache_map", "C14",
 mut("c14_v31_package_level_kvm", "C14",
     ("31/cvss31.go", "\t// Parse vector\n\tkvm := kvm{}\n", "\t// Parse vector\n\tscratchKvm = kvm{}\n\tkvm := &scratchKvm\n"),
     ("31/cvss31.go", "type kvm struct {", "var scratchKvm kvm\n\ntype kvm struct {"))
+mut("c14_v31_shared_error_instance", "C14",
+    ("31/cvss31.go", "\tdefault:\n\t\treturn &ErrInvalidMetric{Abv: abv}\n\t}\n\tif *dst {", "\tdefault:\n\t\tsharedInvalid.Abv = abv\n\t\treturn sharedInvalid\n\t}\n\tif *dst {"),
+    ("31/cvss31.go", "type kvm struct {", "var sharedInvalid = &ErrInvalidMetric{}\n\ntype kvm struct {"))
+mut("c14_v4_parse_returns_pooled_object", "C14",
+    ("40/cvss40.go", "\tcvss40 := &CVSS40{\n", "\tcvss40 := lastParsed\n\tif parses++; parses%64 != 0 {\n\t\tcvss40 = &CVSS40{}\n\t\tlastParsed = cvss40\n\t}\n\t*cvss40 = CVSS40{\n"),
+    ("40/cvss40.go", "// ParseVector parses a given vector string, validates it\n// and returns a CVSS31.\nfunc ParseVector(vector string) (*CVSS40, error) {", "var (\n\tlastParsed = &CVSS40{}\n\tparses     int\n)\n\n// ParseVector parses a given vector string, validates it\n// and returns a CVSS31.\nfunc ParseVector(vector string) (*CVSS40, error) {"))
 # ---------------- C15
 mut("c15_v31_high_threshold_exclusive", "C15", ("31/cvss31.go", "\tif score >= 7.0 {", "\tif score > 7.0 {"))
 mut("c15_v4_ten_rejected", "C15 C11", ("40/cvss40.go", "\tif score < 0.0 || score > 10.0 {\n\t\treturn \"\", ErrOutOfBoundsScore\n\t}\n\tif score >= 9.0 {", "\tif score < 0.0 || score >= 10.0 {\n\t\treturn \"\", ErrOutOfBoundsScore\n\t}\n\tif score >= 9.0 {"))
